@@ -1,7 +1,7 @@
 // Copyright (c) 2024, Qualcomm Innovation Center, Inc. All rights reserved.
 // SPDX-License-Identifier: BSD-3-Clause
 
-use idlc_codegen_c::globals::emit_struct;
+use idlc_codegen_c::globals::{emit_struct_once, local_structs};
 use idlc_codegen_c::types::{change_primitive, const_expression};
 use idlc_mir::Node;
 
@@ -15,6 +15,8 @@ impl idlc_codegen::SplitInvokeGenerator for Generator {
         let mut result = String::new();
         result.push_str(&generate_common());
 
+        let local = local_structs(mir);
+        let mut emitted = Vec::new();
         for node in &mir.nodes {
             match node.as_ref() {
                 Node::Include(i) => {
@@ -31,7 +33,7 @@ impl idlc_codegen::SplitInvokeGenerator for Generator {
                     ));
                 }
                 Node::Struct(s) => {
-                    result.push_str(&emit_struct(s.as_ref()));
+                    emit_struct_once(s.as_ref(), &local, &mut emitted, &mut result);
                 }
                 Node::Interface(i) => {
                     result.push_str(&emit_interface_impl(i));
